@@ -17,8 +17,9 @@
     extraction with separate sources for the instance pass and the feature
     pass) -- tied to /repo by the correspondence run of harness/vp/props/c16.py. *)
 From Coq Require Import List Ascii String ZArith NArith Bool Permutation.
-From Shexer Require Import Lib.PyStr Lib.Dict Gen.Consts Spec.Rdf Spec.Restrict Model.Tracker Model.Freq Model.Run
-     Model.NsFilter Model.Run2 Proofs.RestrictProofs.
+From Shexer Require Import Lib.PyStr Lib.Dict Gen.Consts Spec.Rdf Spec.Restrict Spec.Counts Model.Tracker Model.Profiler
+     Model.Freq Model.Shexing Model.Run Model.NsFilter Model.Run2 Proofs.ProfileChar Proofs.ShexKeys Proofs.EndToEnd Proofs.RestrictProofs
+     Proofs.RestrictCompose.
 Import ListNotations.
 
 (** ** (cap1) the instances of every class are exactly its first k, in both target modes.
@@ -52,23 +53,24 @@ Proof. exact track_cap_is_build. Qed.
 Print Assumptions C16_cap_dictionary.
 
 (** ** the early stop of pure target_classes mode skips only triples that the
-    non-stopping variant would reject *)
-Theorem C16_cap_early_stop : forall tau l cap g, 0 < cap -> tau_ok tau g ->
+    non-stopping variant would reject (no hypothesis on the graph) *)
+Theorem C16_cap_early_stop : forall tau l cap g, 0 < cap ->
   track_cap tau (TClasses l) cap (Some (List.length l)) g [] {| cc := []; completed := 0 |}
   = track_cap tau (TClasses l) cap None g [] {| cc := []; completed := 0 |}.
 Proof. exact track_cap_stop_eq. Qed.
 Print Assumptions C16_cap_early_stop.
 
-(** ... and without any hypothesis on the graph, every normal result of the non-stopping variant is kept *)
-Theorem C16_cap_early_stop_sound : forall tau l cap g I, 0 < cap ->
-  track_cap tau (TClasses l) cap None g [] {| cc := []; completed := 0 |} = inl I ->
-  track_cap tau (TClasses l) cap (Some (List.length l)) g [] {| cc := []; completed := 0 |} = inl I.
-Proof. exact track_cap_stop_sound. Qed.
-Print Assumptions C16_cap_early_stop_sound.
+(** the tracker raises exactly when, in all_classes_mode, a typing triple has a
+    literal object -- whatever the cap (with target classes it never raises) *)
+Theorem C16_track_err_iff : forall tau m k g e,
+  track tau m k g = inr e <->
+  e = TEAttr /\ m = TAll /\ exists t, In t g /\ tp t = tau /\ is_node (to t) = false.
+Proof. exact track_err_iff. Qed.
+Print Assumptions C16_track_err_iff.
 
 (** ** (cap2) cap on = no cap on the restricted document (instance pass) *)
 Theorem C16_cap_is_restriction : forall tau m k g z, (0 < k)%Z -> (z <= 0)%Z ->
-  NoDup g -> ids_faithful g -> tau_ok tau g ->
+  NoDup g -> ids_faithful g ->
   track tau m k g = track tau m z (restrict_typing tau (scope_of m) (Z.to_nat k) g).
 Proof. exact cap_is_restriction_graph. Qed.
 Print Assumptions C16_cap_is_restriction.
@@ -80,14 +82,14 @@ Print Assumptions C16_cap_is_restriction.
     typing triples still are [rdf:type [C]] features of instances kept for
     another class (see [C16_plain_restriction_differs]). *)
 Theorem C16_cap_is_restriction_run : forall fa c thr g z, (0 < r_cap c)%Z -> (z <= 0)%Z ->
-  NoDup g -> ids_faithful g -> tau_ok (r_tau c) g ->
+  NoDup g -> ids_faithful g ->
   run_shexc fa c thr g =
   run_shexc2 fa (with_cap c z) thr (restrict_typing (r_tau c) (r_targets c) (Z.to_nat (r_cap c)) g) g.
 Proof. exact run_cap_is_restriction_graph. Qed.
 Print Assumptions C16_cap_is_restriction_run.
 
 Theorem C16_cap_is_restriction_shapes : forall fa c thr g z, (0 < r_cap c)%Z -> (z <= 0)%Z ->
-  NoDup g -> ids_faithful g -> tau_ok (r_tau c) g ->
+  NoDup g -> ids_faithful g ->
   run_shapes fa c thr g =
   run_shapes2 fa (with_cap c z) thr (restrict_typing (r_tau c) (r_targets c) (Z.to_nat (r_cap c)) g) g.
 Proof. exact run_shapes_cap_is_restriction. Qed.
@@ -99,21 +101,63 @@ Theorem C16_ids_faithful_of_marked : forall g, (forall n, node_in g n -> bnode_m
 Proof. exact marked_ids_faithful. Qed.
 Print Assumptions C16_ids_faithful_of_marked.
 
-(** ** (cap3) a cap not smaller than every class changes nothing (duplicates allowed) *)
-Theorem C16_cap_large_id : forall tau m k g z, (0 < k)%Z -> (z <= 0)%Z -> tau_ok tau g ->
+(** ** all figures of a capped run are exact for the first-k subset
+    (composition with P1, Props/P1.v, and the shexing theorem K3, Props/ShexStage.v).
+    [fig_occ tau I g dir cls p] (Proofs/EndToEnd.v) says where a statement's
+    count comes from: for a type key other than the merged NONLITERAL it is ONE
+    declarative count [occ dir tau I g cls p key card] (Spec/Counts.v) -- over
+    the FULL graph [g], membership of subjects and referenced objects read from
+    the capped dictionary [I], which lists exactly the first k instances of
+    every class; [post_okR] attaches it to the line and to each comment. *)
+Theorem C16_cap_figures_exact : forall fa c thr g ns shapes,
+  (0 < r_cap c)%Z -> NoDup g -> ids_faithful g ->
+  run_shapes fa c thr g = inl (ns, shapes) ->
+  let k := Z.to_nat (r_cap c) in
+  exists I,
+    track (r_tau c) (mode_of c) (r_cap c) g = inl I /\
+    (forall z, (z <= 0)%Z ->
+       track (r_tau c) (mode_of c) z (restrict_typing (r_tau c) (r_targets c) k g) = inl I) /\
+    (forall cl i, In cl (classes_of I i) <-> In i (first_k_instances (r_tau c) (r_targets c) k g cl)) /\
+    forall sh, In sh shapes ->
+      sh_n sh = N.of_nat (Nat.min k (List.length (class_subjects (r_tau c) (r_targets c) g (sh_class sh)))) /\
+      sh_n sh = class_count I (sh_class sh) /\
+      forall st, In st (sh_stmts sh) ->
+        (s_inv st = true -> r_inverse c = true) /\
+        post_okR (scfg_of c ns) (fig_occ (r_tau c) I g (dir_of (s_inv st)) (sh_class sh) (s_prop st)) st.
+Proof. exact cap_figures_exact. Qed.
+Print Assumptions C16_cap_figures_exact.
+
+(** the same statement for the extraction with separate sources (any cap, any
+    instance document [gi]): figures are [occ] over the feature graph [gf]
+    w.r.t. the dictionary tracked on [gi] *)
+Theorem C16_figures_run_shapes2 : forall fa c thr gi gf ns shapes,
+  run_shapes2 fa c thr gi gf = inl (ns, shapes) ->
+  exists I, track (r_tau c) (mode_of c) (r_cap c) gi = inl I /\
+    forall sh, In sh shapes ->
+      In (sh_class sh) (class_keys (targets_of (pcfg_of c)) I) /\
+      sh_name sh = shape_name (r_shapes_ns c) (sh_class sh) /\
+      sh_n sh = class_count I (sh_class sh) /\
+      forall st, In st (sh_stmts sh) ->
+        (s_inv st = true -> r_inverse c = true) /\
+        post_okR (scfg_of c ns) (fig_occ (r_tau c) I gf (dir_of (s_inv st)) (sh_class sh) (s_prop st)) st.
+Proof. exact e2e2_figures. Qed.
+Print Assumptions C16_figures_run_shapes2.
+
+(** ** (cap3) a cap not smaller than every class changes nothing (any document: duplicates, literal objects) *)
+Theorem C16_cap_large_id : forall tau m k g z, (0 < k)%Z -> (z <= 0)%Z ->
   (forall c, List.length (class_subjects tau (scope_of m) g c) <= Z.to_nat k) ->
   track tau m k g = track tau m z g.
 Proof. exact cap_large_id. Qed.
 Print Assumptions C16_cap_large_id.
 
 (** ... in particular it equals the run with the option left at its default ([Consts.dflt_instances_cap], read from the source) *)
-Theorem C16_cap_large_is_default : forall tau m k g, (0 < k)%Z -> tau_ok tau g ->
+Theorem C16_cap_large_is_default : forall tau m k g, (0 < k)%Z ->
   (forall c, List.length (class_subjects tau (scope_of m) g c) <= Z.to_nat k) ->
   track tau m k g = track tau m dflt_instances_cap g.
 Proof. exact cap_large_is_default. Qed.
 Print Assumptions C16_cap_large_is_default.
 
-Theorem C16_cap_large_id_run : forall fa c thr g z, (0 < r_cap c)%Z -> (z <= 0)%Z -> tau_ok (r_tau c) g ->
+Theorem C16_cap_large_id_run : forall fa c thr g z, (0 < r_cap c)%Z -> (z <= 0)%Z ->
   (forall x, List.length (class_subjects (r_tau c) (r_targets c) g x) <= Z.to_nat (r_cap c)) ->
   run_shexc fa c thr g = run_shexc fa (with_cap c z) thr g.
 Proof. exact run_cap_large_id. Qed.
@@ -168,17 +212,15 @@ Definition ex_g : graph :=
 Definition ex_m : tmode := TClasses [Str "C"; Str "D"].
 
 Example C16_example :
-  NoDup (memberships ex_tau (scope_of ex_m) ex_g) /\ tau_ok ex_tau ex_g /\
+  NoDup (memberships ex_tau (scope_of ex_m) ex_g) /\
   track ex_tau ex_m 2 ex_g = inl [(Str "a", [Str "C"]); (Str "b", [Str "D"; Str "C"]); (Str "c", [Str "D"])] /\
   first_k_instances ex_tau (scope_of ex_m) 2 ex_g (Str "C") = [Str "a"; Str "b"] /\
   first_k_instances ex_tau (scope_of ex_m) 2 ex_g (Str "D") = [Str "b"; Str "c"] /\
   List.length (restrict_typing ex_tau (scope_of ex_m) 2 ex_g) = 6 /\
   track ex_tau TAll 2 ex_g = track ex_tau ex_m 2 ex_g.
 Proof.
-  split; [|split].
+  split.
   - vm_compute. repeat constructor; notin.
-  - intros t Ht Hp. cbn in Ht.
-    repeat (destruct Ht as [<-|Ht]; [first [reflexivity | vm_compute in Hp; discriminate Hp]|]). destruct Ht.
   - vm_compute. repeat split; reflexivity.
 Qed.
 
@@ -199,24 +241,15 @@ Proof. vm_compute. split; reflexivity. Qed.
 
 (** ** witnesses of the boundaries *)
 
-(** Known finding C16-F1: pure target_classes mode, a cap no class reaches, and
-    a typing triple whose object is a literal: without the cap the triple is
-    just irrelevant, with the cap [_check_class_counts] raises AttributeError
-    ("a cap not smaller than every class changes nothing" is false here;
-    [tau_ok] in [C16_cap_large_id] cannot be dropped). *)
+(** Former finding C16-F1 (fixed in /repo: [InstanceCapMode.is_relevant_triple]
+    asks the wrapped strategy first): target classes, a cap no class reaches
+    and a typing triple with a literal object -- the cap changes nothing *)
 Definition f1_g : graph := [tt "a" "C"; T (nI "b") ex_tau (OL (Str "x") (Str "dt"))].
-Lemma C16_cap_large_literal_refuted :
-  exists tau m k g, (0 < k)%Z /\ NoDup g /\
-    (forall c, List.length (class_subjects tau (scope_of m) g c) <= Z.to_nat k) /\
-    track tau m k g <> track tau m (-1) g.
-Proof.
-  exists ex_tau, (TClasses [Str "C"]), 5%Z, f1_g. split; [reflexivity|]. split.
-  - repeat constructor; notin.
-  - split.
-    + intros c. unfold class_subjects, subjects_of. rewrite map_length.
-      etransitivity; [apply filter_length_le'|]. vm_compute. repeat constructor.
-    + vm_compute. discriminate.
-Qed.
+Example C16_F1_regression :
+  track ex_tau (TClasses [Str "C"]) 5 f1_g = track ex_tau (TClasses [Str "C"]) (-1) f1_g /\
+  track ex_tau (TClasses [Str "C"]) 5 f1_g = inl [(Str "a", [Str "C"])] /\
+  track ex_tau TAll 5 f1_g = inr TEAttr /\ track ex_tau TAll (-1) f1_g = inr TEAttr.
+Proof. vm_compute. repeat split; reflexivity. Qed.
 
 (** deleting the typing triples from the document BOTH passes read is not the
     same thing: [c] is kept for D and still has the feature [type [C]] in the
